@@ -25,7 +25,30 @@ CFG_MIX = {
     "iops": (("sub", ("lit", 1)),), "unreg": True, "setc": True,
 }
 CFG_NEST = {"values": (3,), "templates": ("mul2", "add", "abs", "round1"), "iops": (("add", ("lit", 1)),), "unreg": True}
-ALPHABETS = {"mix": CFG_MIX, "nest": CFG_NEST}
+# builtins with ref parameters, keyword order, string arguments; load() leaves values that disagree with their definitions
+CFG_PARAM = {"values": (3,), "templates": ("mul2", "roundr", "kw2", "unit"), "unreg": True, "leaves_n": 4, "loads": 6}
+ALPHABETS = {"mix": CFG_MIX, "nest": CFG_NEST, "param": CFG_PARAM}
+
+
+def alphabet_for(world, name):
+    from .c03 import _loads
+    cfg = dict(ALPHABETS[name])
+    n = cfg.pop("leaves_n", None)
+    if n:
+        # operands come from the first two locations, targets are the next ones: operands always hold plain ints, so
+        # round(x, <ref>) and the string-keyed call are always evaluable
+        cfg["sources"] = world["leaves"][:2]
+        cfg["leaves"] = world["leaves"][2:n]
+        cfg["values"] = ()
+        cfg["extra_sets"] = [("set", L, v) for L in world["leaves"][:2] for v in (3, 2)]
+    k = cfg.pop("loads", 0)
+    extra = list(cfg.pop("extra_sets", []))
+    if k:
+        src = cfg.get("sources") or world["leaves"]
+        tgt = cfg.get("leaves") or world["leaves"]
+        extra += [("load", ((L, mgr.tmpl("mul2", (X,))),), ow) for L in tgt[:2] for X in src[:2] for ow in (True, False)][:k]
+    cfg["extra"] = extra
+    return cfg
 
 
 class System(ManagerSystem):
@@ -115,8 +138,8 @@ class System(ManagerSystem):
 def plan(tier, seed):
     seeds = common.seeds_for(tier, seed, quick=(0,), thorough=(0, 1, 2))
     jobs = []
-    runs = [("W-mix", "mix", 2), ("W-nest", "nest", 2), ("W-mix-attr", "nest", 2)] if tier == "quick" else \
-        [("W-mix", "mix", 3), ("W-nest", "nest", 3), ("W-mix-attr", "mix", 2), ("W-mix-attr", "nest", 3)]
+    runs = [("W-mix", "mix", 2), ("W-nest", "nest", 2), ("W-mix-attr", "nest", 2), ("W-flat", "param", 2)] if tier == "quick" else \
+        [("W-mix", "mix", 2), ("W-nest", "nest", 3), ("W-mix-attr", "mix", 2), ("W-mix-attr", "nest", 3), ("W-flat", "param", 3), ("W-nest-4", "param", 3)]
     for hs in seeds:
         for wname, alpha, depth in runs:
             jobs.append({"name": f"bfs:{wname}:{alpha}:d{depth}:seed{hs}", "mode": "compiled", "hashseed": hs,
@@ -129,7 +152,7 @@ def plan(tier, seed):
 
 def run_job(job):
     a = job["args"]
-    return common.run_bfs(System(WORLDS[a["world"]], ALPHABETS[a["alphabet"]], common.config_info(job)), job)
+    return common.run_bfs(System(WORLDS[a["world"]], alphabet_for(WORLDS[a["world"]], a["alphabet"]), common.config_info(job)), job)
 
 
 def finish(plan_, results):
